@@ -23,7 +23,7 @@ MIB = 1 << 20
 
 
 def budget(tier):
-    return 400 if tier == "quick" else 6000
+    return 400 if tier == "quick" else 20000
 
 
 def mk_judge(alen, nops):
